@@ -67,19 +67,34 @@ def make_input(net, perm=None):
         recs.append("<point> <id>%s</id> <x>%.8f</x> <y>%.8f</y> <z>%.8f</z> <geoid>0</geoid> %s </point>" % (ids[i], g[0], g[1], g[2], st))
     obs = []
     k = 0
+
+    def raised0(i, dh):
+        d_ = neu2xyz(blh[i - 1][0], blh[i - 1][1], 0.0, 0.0, dh)
+        return tuple(xyz[i - 1][j] + d_[j] for j in range(3))
     gross = net.get("gross", 0)
     # gross = 1: the last (redundant) vector is wrong by 5 m; gross = 2: the spanning vector that alone reaches the last point
     gidx = len(net["vectors"]) if gross == 1 else (net["np"] - 1 if gross == 2 else 0)
     for (a, b) in net["vectors"]:
         k += 1
         nz = 0.0 if net["noise"] == 0 else ((k * (net["noise"] + 2)) % 7 - 3) / 1000.0
-        d = [xyz[b - 1][j] - xyz[a - 1][j] for j in range(3)]
+        vdh = net.get("vdh", 0)
+        vf, vt = (None, None)
+        if vdh == 1 and k % 2 == 1:
+            vf, vt = 1.512 + 0.1 * k, 0.348 + 0.2 * k
+        elif vdh == 2 and k == 1:
+            vt = 0.705
+        elif vdh == 2 and k == 3:
+            vf = 1.333
+        pa_ = raised0(a, vf or 0.0)
+        pb_ = raised0(b, vt or 0.0)
+        d = [pb_[j] - pa_[j] for j in range(3)]
+        vdhx = ("<from-dh>%.3f</from-dh> " % vf if vf is not None else "") + ("<to-dh>%.3f</to-dh> " % vt if vt is not None else "")
         if k == gidx:
             d[0] += 5.0
         cov = COVS[net["cov"]]
         band = 0 if len(cov) == 3 else 2
-        obs.append("<obs>\n<vector> <from>%s</from> <to>%s</to> <dx>%.4f</dx> <dy>%.4f</dy> <dz>%.4f</dz> </vector>\n<cov-mat> <dim>3</dim> <band>%d</band> %s </cov-mat>\n</obs>" % (
-            ids[a - 1], ids[b - 1], d[0] + nz, d[1] - nz, d[2] + 2 * nz, band, " ".join("<flt>%s</flt>" % v for v in cov)))
+        obs.append("<obs>\n<vector> <from>%s</from> <to>%s</to> <dx>%.9f</dx> <dy>%.9f</dy> <dz>%.9f</dz> %s</vector>\n<cov-mat> <dim>3</dim> <band>%d</band> %s </cov-mat>\n</obs>" % (
+            ids[a - 1], ids[b - 1], d[0] + nz, d[1] - nz, d[2] + 2 * nz, vdhx, band, " ".join("<flt>%s</flt>" % v for v in cov)))
     idh = net.get("idh", 0)
     fdh, tdh = (1.55, 1.20) if idh else (0.0, 0.0)
 
